@@ -14,6 +14,7 @@ From Coq Require Import List NArith ZArith Lia.
 Import ListNotations.
 Require Import ITree.Model.Common ITree.Model.RBTree ITree.Model.MapModel ITree.Model.KeyModel.
 Require Import ITree.Spec.Spec ITree.Proofs.KeyListProofs ITree.Proofs.KeyProofs ITree.Proofs.KeyRefine.
+Require ITree.Model.Pool ITree.Model.ArenaModel ITree.Model.ArenaKey ITree.Proofs.ArenaProofs ITree.Proofs.ArenaKeyProofs.
 
 (* every valid history, of any length, from a new tree with any capacity hint, runs to completion on
    the tree model (lazy expiry, physical removal and rebalancing included) and every predecessor query
@@ -53,3 +54,35 @@ Example C01_example :
   exists s, k_run (k_new 8) h = Ret (s, [KONone; KONone; KONone; KONone; KOVal (Some 100%Z); KOVal (Some 50%Z);
                                          KONone; KOVal (Some 101%Z); KOVal None; KOVal (Some 150%Z)]).
 Proof. split; [kvalid_tac|]. eexists. vm_compute. reflexivity. Qed.
+
+(* the parent-pointer loops of the expiring-key tree themselves (Model/ArenaKey.v transcribes
+   expire_root, expire_left / expire_right with their delete_index + put_back, and the four search
+   loops of src/key/tree.rs statement by statement onto the arena): from an arena representing the
+   model's tree with consistent links and the same pool, each query returns the model's answer (the
+   one the theorems above are about), within ksize-many iterations of every loop, and the arena
+   represents the model's tree again *)
+Theorem C01_arena_query : forall (q: KeyModel.qkind) (f: Z -> comparison) (time: Z) (s: KeyModel.kstate)
+  (a: ArenaModel.astate KeyModel.kent) (s': KeyModel.kstate) (out: option Z) (evs: list KeyModel.event)
+  (dfuel efuel sfuel: nat),
+  KeyProofs.KInv s -> ArenaProofs.Rep a ArenaModel.EMPTY (ArenaModel.aroot a) (KeyModel.kroot s) ->
+  (size KeyModel.kent (KeyModel.kroot s) <= dfuel)%nat -> (size KeyModel.kent (KeyModel.kroot s) < efuel)%nat ->
+  (S (size KeyModel.kent (KeyModel.kroot s)) < sfuel)%nat ->
+  KeyModel.k_query q f s time = Ret (s', out, evs) ->
+  exists a', ArenaKey.arena_query dfuel efuel sfuel q f (a, KeyModel.kpl s) time = Ret ((a', KeyModel.kpl s'), out) /\
+    ArenaProofs.Rep a' ArenaModel.EMPTY (ArenaModel.aroot a') (KeyModel.kroot s') /\ KeyProofs.KInv s' /\
+    (size KeyModel.kent (KeyModel.kroot s') <= size KeyModel.kent (KeyModel.kroot s))%nat.
+Proof. exact ArenaKeyProofs.arena_query_refines. Qed.
+
+(* ... and insertion: expire_root, the purging descent, insert_as_left / insert_as_right at the node
+   the code holds (the tree-level model re-descends from the root; the two coincide because the
+   purging descent keeps the held node on the search path of the new key) *)
+Theorem C01_arena_insert : forall (ne: KeyModel.kent) (time: Z) (s: KeyModel.kstate)
+  (a: ArenaModel.astate KeyModel.kent) (s': KeyModel.kstate) (evs: list KeyModel.event) (dfuel efuel sfuel ifuel: nat),
+  KeyProofs.KInv s -> ArenaProofs.Rep a ArenaModel.EMPTY (ArenaModel.aroot a) (KeyModel.kroot s) ->
+  (size KeyModel.kent (KeyModel.kroot s) <= dfuel)%nat -> (size KeyModel.kent (KeyModel.kroot s) < efuel)%nat ->
+  (size KeyModel.kent (KeyModel.kroot s) < sfuel)%nat -> (2 * size KeyModel.kent (KeyModel.kroot s) + 2 <= ifuel)%nat ->
+  (Pool.blen (KeyModel.kpl s) < ArenaModel.EMPTY)%N ->
+  KeyModel.k_insert s ne time = Ret (s', evs) ->
+  exists a', ArenaKey.arena_k_insert dfuel efuel sfuel ifuel (a, KeyModel.kpl s) ne time = Ret (a', KeyModel.kpl s') /\
+    ArenaProofs.Rep a' ArenaModel.EMPTY (ArenaModel.aroot a') (KeyModel.kroot s').
+Proof. exact ArenaKeyProofs.arena_k_insert_refines. Qed.
